@@ -208,7 +208,9 @@ func runC03(c *core.Ctx) {
 		{Name: "aud", N: len(audSeqs), Weight: audWeight, Label: audLabel},
 		{Name: "status", N: len(statusVals), Label: func(i int) string { return statusVals[i].name }},
 		// options / attributes that must not matter for the addressing checks
-		{Name: "method", N: 4, Label: func(i int) string { return []string{"bearer", "conf1-holder-of-key", "conf2-sender-vouches", "all-holder-of-key"}[i] }},
+		{Name: "method", N: 4, Label: func(i int) string {
+			return []string{"bearer", "conf1-holder-of-key", "conf2-sender-vouches", "all-holder-of-key"}[i]
+		}},
 		{Name: "idpinit", N: 2, Label: func(i int) string { return []string{"off", "AllowIDPInitiated"}[i] }},
 	}
 	k := 2
